@@ -101,6 +101,20 @@ static void check_local(const char* zone, bool extended, const TimeZone& tz, con
   (void) nearest;
 }
 
+// "every zone" includes manual ones: no gaps, no overlaps, so every wall time occurs exactly once and must come back
+// unchanged with the offset in force, standard + DST
+static void c07_manual(Rng& rng) {
+  std::vector<Tr> none;
+  for (int std = -960; std <= 960; std += 45) for (int dst : {-60, 0, 30, 60, 120}) {
+    TimeZone tz = TimeZone::forTimeOffset(TimeOffset::forMinutes((int16_t) std), TimeOffset::forMinutes((int16_t) dst));
+    char nm[48]; snprintf(nm, sizeof nm, "manual(std=%d,dst=%d)", std, dst);
+    CNT.add("local.manual_zones");
+    int64_t fixedL[] = {LO + 2 * 86400, LO + 2 * 86400 + 1, (HI - 2 * 86400) - 1, 605000000LL - (605000000LL % 60), 605000000LL + 59};
+    for (int64_t L : fixedL) check_local(nm, true, tz, tz, none, L, "manual-zone");
+    for (int k = 0; k < 40; k++) { int64_t L = LO + 2 * 86400 + (int64_t) (rng.next() % (uint64_t) (HI - LO - 4 * 86400)); check_local(nm, true, tz, tz, none, L, "manual-zone"); }
+  }
+}
+
 template <typename ZI, typename PROC>
 static void c07_zone(const ZI* zi, bool extended, long long nrandom, Rng& rng) {
   PROC* a = new PROC(); PROC* b = new PROC();
@@ -296,6 +310,7 @@ int main(int argc, char** argv) {
   if (mode == "c07") {
     long long nrandom = a.num("random", 2000);
     std::string db = a.get("db", "both");
+    if (shard == 0) c07_manual(rng);
     if (db != "extended") for (uint16_t i = 0; i < VERIF_BASIC_NS::kZoneRegistrySize; i++) if (i % nsh == shard) c07_zone<basic::ZoneInfo, BasicZoneProcessor>(VERIF_BASIC_NS::kZoneRegistry[i], false, nrandom, rng);
     if (db != "basic") for (uint16_t i = 0; i < VERIF_EXT_NS::kZoneRegistrySize; i++) if (i % nsh == shard) c07_zone<extended::ZoneInfo, ExtendedZoneProcessor>(VERIF_EXT_NS::kZoneRegistry[i], true, nrandom, rng);
   } else if (mode == "c05fixed") {
